@@ -29,6 +29,7 @@ type Worker struct {
 	Kind string `json:"kind"` // add-done | inc-done | launch | dotimes | op-add | startgroup
 	N    int    `json:"n,omitempty"`
 	Exit string `json:"exit,omitempty"` // launched operations: "" returns | goexit: leaves its goroutine through runtime.Goexit (as t.FailNow / t.SkipNow do)
+	Ctx  string `json:"ctx,omitempty"`  // launched operations: the context they are launched with: "" live | cancelled | expired (its deadline has passed)
 }
 
 type Waiter struct {
@@ -102,6 +103,23 @@ func units(r Round) int {
 	return n
 }
 
+// launchCtx is the context an operation is launched with: the operation is
+// started and accounted for whatever state that context is in (it is the
+// operation's business to look at it).
+func launchCtx(live context.Context, kind string) context.Context {
+	switch kind {
+	case "cancelled":
+		c, cancel := context.WithCancel(live)
+		cancel()
+		return c
+	case "expired":
+		c, cancel := context.WithDeadline(live, time.Now().Add(-time.Second))
+		_ = cancel // released with the parent at the end of the case
+		return c
+	}
+	return live
+}
+
 func runCase(c *Case) (string, string) {
 	if c.Procs > 0 {
 		old := runtime.GOMAXPROCS(c.Procs)
@@ -140,9 +158,9 @@ func runCase(c *Case) (string, string) {
 					}
 				})
 				if w.Kind == "launch" {
-					wg.Launch(ctx, op)
+					wg.Launch(launchCtx(ctx, w.Ctx), op)
 				} else {
-					op.Add(ctx, wg)
+					op.Add(launchCtx(ctx, w.Ctx), wg)
 				}
 				b.inc(1)
 			case "dotimes", "startgroup":
@@ -166,9 +184,9 @@ func runCase(c *Case) (string, string) {
 					}
 				})
 				if w.Kind == "dotimes" {
-					wg.DoTimes(ctx, w.N, op)
+					wg.DoTimes(launchCtx(ctx, w.Ctx), w.N, op)
 				} else {
-					op.StartGroup(ctx, wg, w.N)
+					op.StartGroup(launchCtx(ctx, w.Ctx), wg, w.N)
 				}
 				b.inc(launched)
 			}
@@ -316,6 +334,9 @@ func genCase(t *rapid.T) *Case {
 			}
 			if w.Kind != "add-done" && w.Kind != "inc-done" && rapid.IntRange(0, 3).Draw(t, "goexit") == 0 {
 				w.Exit = "goexit"
+			}
+			if w.Kind != "add-done" && w.Kind != "inc-done" {
+				w.Ctx = rapid.SampledFrom([]string{"", "", "", "cancelled", "expired"}).Draw(t, "launchCtx")
 			}
 			r.Workers = append(r.Workers, w)
 		}
@@ -557,5 +578,81 @@ func TestWaitGroupReuse(t *testing.T) {
 			}
 		}
 		vkit.CaseN(tReuse, vkit.Hash(*c), reps, true, []string{fmt.Sprintf("waiters:%d", c.Waiters), fmt.Sprintf("crossings:%d", len(c.Flips))}, func() any { return *c })
+	})
+}
+
+// ---------------------------------------------------------------------
+// concurrent over-decrement
+
+// "an Add that would make it negative panics with an invariant violation
+// without changing it" - also when several such calls arrive together: with
+// the counter at k, of k+m concurrent Done calls exactly m panic and the
+// counter ends at zero, never below.
+
+const tOver = "TestConcurrentOverDecrement"
+
+type overCase struct {
+	K     int `json:"k"`
+	Extra int `json:"extra"`
+	Procs int `json:"gomaxprocs"`
+}
+
+func runOver(c *overCase, rounds int) string {
+	if c.Procs > 0 {
+		old := runtime.GOMAXPROCS(c.Procs)
+		defer runtime.GOMAXPROCS(old)
+	}
+	for r := 0; r < rounds; r++ {
+		wg := &fun.WaitGroup{}
+		wg.Add(c.K)
+		var panics, foreign atomic.Int64
+		var swg sync.WaitGroup
+		var arrived atomic.Int64 // a spinning barrier: the calls start within nanoseconds of each other
+		total := int64(c.K + c.Extra)
+		for i := 0; i < c.K+c.Extra; i++ {
+			swg.Add(1)
+			go func() {
+				defer swg.Done()
+				defer func() {
+					if rec := recover(); rec != nil {
+						if err, ok := rec.(error); ok && errors.Is(err, ers.ErrInvariantViolation) {
+							panics.Add(1)
+						} else {
+							foreign.Add(1)
+						}
+					}
+				}()
+				arrived.Add(1)
+				for arrived.Load() < total {
+					runtime.Gosched()
+				}
+				wg.Done()
+			}()
+		}
+		swg.Wait()
+		if n := wg.Num(); n != 0 || panics.Load() != int64(c.Extra) || foreign.Load() != 0 {
+			return fmt.Sprintf("counter %d, %d concurrent Done calls: %d of them panicked with an invariant violation (want %d, other panics %d) and Num() ended at %d (want 0) (round %d)", c.K, c.K+c.Extra, panics.Load(), c.Extra, foreign.Load(), n, r)
+		}
+	}
+	return ""
+}
+
+func TestConcurrentOverDecrement(t *testing.T) {
+	var rc overCase
+	if ok, err := vkit.ReplayCase(tOver, &rc); err != nil {
+		t.Fatal(err)
+	} else if ok {
+		if why := runOver(&rc, 5000); why != "" {
+			vkit.Fail(t, tOver, "C14:negative-concurrent", rc, "%s", why)
+		}
+		return
+	}
+	rounds := vkit.Pick(150, 600)
+	rapid.Check(t, func(t *rapid.T) {
+		c := &overCase{K: rapid.IntRange(0, 4).Draw(t, "k"), Extra: rapid.IntRange(1, 4).Draw(t, "extra"), Procs: rapid.SampledFrom([]int{2, 4, 16}).Draw(t, "gomaxprocs")}
+		if why := runOver(c, rounds); why != "" {
+			vkit.Fail(t, tOver, "C14:negative-concurrent", *c, "%s", why)
+		}
+		vkit.CaseN(tOver, vkit.Hash(*c), rounds, c.K >= 1, []string{fmt.Sprintf("k:%d", c.K)}, func() any { return *c })
 	})
 }
